@@ -34,6 +34,9 @@ struct Depth {
     h: Option<usize>,
     /// the active error handling mode: 0 = none, 1 = resume next, 2 + address = handler
     mode: usize,
+    /// depths (value, var-path, by-ref, states) when the current statement started: a handled
+    /// error restores them (C15-E only)
+    entry: (i32, usize, i32, usize),
 }
 
 impl Depth {
@@ -48,6 +51,7 @@ impl Depth {
             g: vec![],
             h: None,
             mode: 0,
+            entry: (0, 0, 0, 0),
         }
     }
 
@@ -62,6 +66,17 @@ impl Depth {
             self.f,
             self.g.len()
         )
+    }
+
+    /// What the VM does when an error is handled: back to the depths of the statement's start.
+    fn unwound(&self) -> Depth {
+        let mut e = self.clone();
+        e.v = e.v.min(self.entry.0);
+        e.p.truncate(self.entry.1);
+        e.q = e.q.min(self.entry.2);
+        e.s.truncate(self.entry.3);
+        e.f = false;
+        e
     }
 
     /// The part compared for path independence (the GOSUB stack and handler flag are control state).
@@ -330,6 +345,10 @@ pub fn analyse(igr: &InstructionGeneratorResult, with_error_edges: bool) -> Anal
             queue.push_back((p.start, z));
         }
         while let Some((pc, d)) = queue.pop_front() {
+            let mut d = d;
+            if with_error_edges && stmt_starts.contains(&pc) {
+                d.entry = (d.v, d.p.len(), d.q, d.s.len());
+            }
             total_states += 1;
             if seen.len() > MAX_STATES_PER_PROC {
                 bad(&format!("C15|{}|state-space-not-finite", tag), format!("more than {} abstract states in {}: some stack grows along a cycle", MAX_STATES_PER_PROC, p.name));
@@ -564,15 +583,13 @@ pub fn analyse(igr: &InstructionGeneratorResult, with_error_edges: bool) -> Anal
                 if block_header[pc] {
                     skipped_header_edges += 1;
                 } else if d.mode == 1 {
-                    // ON ERROR RESUME NEXT: continue with the next statement, nothing is unwound
-                    succ.push((next_stmt(pc), d.clone()));
+                    // ON ERROR RESUME NEXT: what the statement had pushed is abandoned and the
+                    // next statement runs
+                    succ.push((next_stmt(pc), d.unwound()));
                 } else {
-                    // the failing instruction's own effect does not happen;
-                    // argument-collecting states are dropped, the handler gets a state of its own
-                    let mut e = d.clone();
-                    while e.s.last() == Some(&true) {
-                        e.s.pop();
-                    }
+                    // the failing instruction's own effect does not happen; what the statement had
+                    // pushed is abandoned and the handler gets a state of its own
+                    let mut e = d.unwound();
                     e.s.push(false);
                     e.h = Some(pc);
                     succ.push((d.mode - 2, e));
@@ -722,18 +739,20 @@ pub fn worker(case: &Value) -> Value {
         transitions += plain.transitions;
         let mut all: Vec<(String, String)> = plain.bads.clone();
         let uses_handlers = text.to_ascii_uppercase().contains("ON ERROR");
+        let mut with_edges = None;
         if uses_handlers {
             let e = analyse(&igr, true);
             states += e.states;
             transitions += e.transitions;
-            for b in e.bads {
+            for b in &e.bads {
                 if !all.iter().any(|(s, _)| s.replace("|E|", "|flow|") == b.0.replace("|E|", "|flow|")) {
-                    all.push(b);
+                    all.push(b.clone());
                 }
             }
+            with_edges = Some(e);
         }
         // conformance run (programs without handlers: the abstract graph has no error edges)
-        if !uses_handlers && !text.to_ascii_uppercase().contains("INKEY") {
+        if !text.to_ascii_uppercase().contains("INKEY") {
             let opts = RunOpts {
                 stdin: b"1\n2\n3\n".to_vec(),
                 budget: 200_000,
@@ -749,7 +768,10 @@ pub fn worker(case: &Value) -> Value {
             {
                 conformed += 1;
                 *hist.entry("conformance-run".into()).or_insert(0) += 1;
-                if let Some(msg) = conform(&plain, &m.trace, &names)
+                if uses_handlers {
+                    *hist.entry("conformance-run-with-handlers".into()).or_insert(0) += 1;
+                }
+                if let Some(msg) = conform(with_edges.as_ref().unwrap_or(&plain), &m.trace, &names)
                     && all.is_empty()
                 {
                     all.push(("C15|conformance|vm-state-not-in-abstract-graph".to_string(), msg));
